@@ -14,6 +14,7 @@ import (
 	"sort"
 	"strings"
 	"sync"
+	"time"
 
 	"verif/sched"
 	"verif/vf"
@@ -227,6 +228,10 @@ func Explore(c *vf.Ctx, scs []Scenario) {
 		replay(c, scs)
 		return
 	}
+	if n := os.Getenv("VERIF_RACE_ITERS"); n != "" {
+		racePass(scs, n)
+		os.Exit(0)
+	}
 	// determinism self-test: the default schedule of the first scenario twice
 	if len(scs) > 0 {
 		x1, o1 := runOne(&scs[0], nil)
@@ -413,4 +418,32 @@ func replay(c *vf.Ctx, scs []Scenario) {
 		return
 	}
 	fmt.Println("replay: scenario not found:", name)
+}
+
+// racePass runs every scenario body free-running (the package is NOT instrumented in
+// this build, so goroutines are scheduled by the Go runtime) a number of times; the
+// binary is built with -race, and any report goes to stderr. This is sampling and never
+// decides a property: it is the side condition under which scheduling points at
+// synchronisation operations are sufficient.
+func racePass(scs []Scenario, iters string) {
+	var n int
+	fmt.Sscanf(iters, "%d", &n)
+	ran, hung := 0, 0
+	for i := range scs {
+		sc := &scs[i]
+		for k := 0; k < n; k++ {
+			done := make(chan struct{})
+			go func() {
+				defer func() { recover(); close(done) }()
+				sc.Body()
+			}()
+			select {
+			case <-done:
+				ran++
+			case <-time.After(5 * time.Second):
+				hung++ // e.g. a scenario that deadlocks on the known finding; abandon it
+			}
+		}
+	}
+	fmt.Printf("race pass: %d scenario runs completed, %d abandoned after 5s\n", ran, hung)
 }
